@@ -2,6 +2,7 @@
 import objworld
 
 PROP_ID = "C17"
+WARMUP_RUNS = 300   # chunks run in fresh forks: compile as many kernel signatures as possible in the parent
 
 
 class RunClass(objworld.ObjWorld):
